@@ -1,8 +1,1898 @@
-//! C15 — not built yet.
+//! C15 — connection lifecycle hooks fire once, in order, on every exit path.
+//!
+//! Fault enumeration: a table of (exit cause × connection phase × serving entry point) cells, each
+//! executed as one scenario against a fresh real `WebSocketServer` with 1..32 concurrent raw
+//! `tokio_tungstenite` clients (raw `TcpStream` where bytes have to be forged). Every callback, handler
+//! and driver action appends to a per-scenario event log stamped from ONE global atomic sequence; the
+//! oracle runs offline over those logs plus the frame order each raw client saw.
+//!
+//! Hook layout per server (registration order matters, hooks fire in registration order):
+//!   connect:    C0 (log)            -> registry insert -> C1 (alias a/b, probe, /hello1 notify, log) -> Cx (handshake hook: alias c, /hello2)
+//!   disconnect: D0 (probe, log)     -> registry remove -> D1 (probe, log)
+//! so D0 sees the registry *before* the library's removal and D1 *after* it.
+//!
+//! Replaying one cell of a witness (`replay` json of a violation carries cause/phase/entry/conns/seed):
+//!   rv c15 --tier quick only=<Cause>:<Phase>:<Entry> conns=<n> cellseed=<seed>
+//!
+//! Harness notes: scenarios deliberately park tokio worker threads inside connect callbacks / inline handlers
+//! (gates make the phase certain), so the server side runs on its own 56-worker runtime with a global budget of
+//! blocked workers and an external ticker that keeps the I/O driver owned; raw clients run on a second runtime
+//! that is never blocked. Verdicts depend on event order and counts only; every wait is bounded (15 s window,
+//! heartbeat stall => inconclusive).
+
 use crate::common::*;
+use crate::oracle::{SPEC, SpecHeader, frame, valid_parse};
+use futures_util::future::join_all;
+use futures_util::{SinkExt, StreamExt};
+use repe::server::Router;
+use repe::tokio_tungstenite::tungstenite::http;
+use repe::{
+    CallContext, ConnectionError, ErrorCode, HandshakeContext, NotifyBody, PeerHandle, PeerId, PeerRegistry, PeerSendError,
+    SharedWebSocketServer, ShutdownToken, WebSocketServer, derive_accept_key,
+};
+use serde_json::{Value, json};
+use std::collections::{BTreeMap, HashMap};
+use std::net::SocketAddr;
+use std::sync::atomic::{AtomicU64, Ordering};
+use std::sync::{Arc, Condvar, Mutex};
+use std::time::{Duration, Instant};
+use tokio::io::{AsyncReadExt, AsyncWriteExt};
+use tokio::net::{TcpListener, TcpSocket, TcpStream};
+use tokio::sync::{Semaphore, oneshot};
+use tokio_tungstenite::WebSocketStream;
+use tokio_tungstenite::tungstenite::Message as Ws;
+
+// ------------------------------------------------------------------ table dimensions
+
+#[derive(Clone, Copy, Debug, PartialEq, Eq, Hash, PartialOrd, Ord)]
+enum Cause {
+    Close,
+    TcpDrop,
+    Rst,
+    Text,
+    CorruptWs,
+    MalformedRepe,
+    InlinePanic,
+    ConnectPanic,
+    TokenCancel,
+    GracefulDrain,
+    DrainAbort,
+}
+const CAUSES: [Cause; 11] = [
+    Cause::Close,
+    Cause::TcpDrop,
+    Cause::Rst,
+    Cause::Text,
+    Cause::CorruptWs,
+    Cause::MalformedRepe,
+    Cause::InlinePanic,
+    Cause::ConnectPanic,
+    Cause::TokenCancel,
+    Cause::GracefulDrain,
+    Cause::DrainAbort,
+];
+
+#[derive(Clone, Copy, Debug, PartialEq, Eq, Hash, PartialOrd, Ord)]
+enum Phase {
+    Idle,
+    Inline,
+    OffReader,
+    QueueFull,
+    ConnectCb,
+}
+const PHASES: [Phase; 5] = [Phase::Idle, Phase::Inline, Phase::OffReader, Phase::QueueFull, Phase::ConnectCb];
+
+#[derive(Clone, Copy, Debug, PartialEq, Eq, Hash, PartialOrd, Ord)]
+enum Entry {
+    /// `serve_listener`
+    ServeListener,
+    /// `serve_listener_with_graceful_drain`
+    DrainListener,
+    /// own accept loop: `accept` (+`_with_handshake`) + `serve_connection` (+`_with_handshake`)
+    AcceptServe,
+    /// own accept loop: `accept` + `serve_connection_with_cancel` (+`_and_handshake`)
+    AcceptServeCancel,
+    /// hand-written HTTP upgrade + `adopt_upgraded(_partially_read)` + `serve_connection*`
+    Adopt,
+}
+const ENTRIES: [Entry; 5] = [Entry::ServeListener, Entry::DrainListener, Entry::AcceptServe, Entry::AcceptServeCancel, Entry::Adopt];
+
+#[derive(Clone, Copy, Debug, PartialEq, Eq, Hash, PartialOrd, Ord)]
+enum BadHs {
+    WrongPath,
+    Garbage,
+    EarlyClose,
+    PartialRequest,
+    NoUpgrade,
+}
+const BAD_HS: [BadHs; 5] = [BadHs::WrongPath, BadHs::Garbage, BadHs::EarlyClose, BadHs::PartialRequest, BadHs::NoUpgrade];
+
+fn is_frame_cause(c: Cause) -> bool {
+    matches!(c, Cause::Text | Cause::CorruptWs | Cause::MalformedRepe | Cause::InlinePanic)
+}
+fn is_client_cause(c: Cause) -> bool {
+    matches!(c, Cause::Close | Cause::TcpDrop | Cause::Rst) || is_frame_cause(c)
+}
+
+/// Some(reason) when the cell cannot be produced / is a duplicate of another cell by construction.
+fn skip_reason(c: Cause, p: Phase, e: Entry) -> Option<&'static str> {
+    match c {
+        Cause::TokenCancel if !matches!(e, Entry::AcceptServeCancel | Entry::Adopt) => return Some("entry point takes no embedder ShutdownToken"),
+        Cause::GracefulDrain | Cause::DrainAbort if e != Entry::DrainListener => return Some("only serve_listener_with_graceful_drain has a drain"),
+        _ => {}
+    }
+    if c == Cause::ConnectPanic && !matches!(p, Phase::ConnectCb | Phase::Idle) {
+        return Some("a connection whose connect callback panics never reaches this phase");
+    }
+    if p == Phase::ConnectCb && is_frame_cause(c) {
+        return Some("frames are consumed by the reader, which has not started inside a connect callback (same as the idle cell)");
+    }
+    if c == Cause::DrainAbort && p == Phase::Idle {
+        return Some("nothing uncooperative to abort on an idle connection (same as the graceful-drain cell)");
+    }
+    None
+}
+
+// ------------------------------------------------------------------ event log (one global sequence)
+
+static SEQ: AtomicU64 = AtomicU64::new(1);
+fn next_seq() -> u64 {
+    SEQ.fetch_add(1, Ordering::SeqCst)
+}
+
+#[derive(Clone, Debug)]
+enum Ev {
+    Connect0 { peer: u64 },
+    Connect1 { peer: u64, alias_ok: bool, hello_ok: bool, get: bool, by_a: bool, by_b: bool },
+    ConnectCtx { peer: u64, hello_ok: bool, client: i64 },
+    CGateEnter { peer: u64 },
+    CGateExit { peer: u64, timeout: bool },
+    Disc0 { peer: u64, get: bool, by_a: bool, by_b: bool },
+    Disc1 { peer: u64, get: bool, by_a: bool, by_b: bool, n_alias: usize },
+    HEnter { peer: u64, tok: u64, off: bool },
+    HCancelSeen { peer: u64, tok: u64 },
+    HRelease { peer: u64, tok: u64, off: bool, s1: u64, cancelled: bool, timeout: bool },
+    Probe { peer: u64, s1: u64, get: bool, by_a: bool, by_b: bool, site: &'static str },
+    QueueFull { peer: u64, pushed: u64 },
+    PanicNow { peer: u64, site: &'static str },
+    CancelCalled,
+    ShutdownFired,
+    ServeReturned,
+    ConnServed { ok: bool },
+    BystanderAlive { peer: u64 },
+    Error { kind: &'static str },
+}
+
+struct Gate {
+    st: Mutex<Option<u8>>,
+    cv: Condvar,
+}
+impl Gate {
+    fn new() -> Gate {
+        Gate { st: Mutex::new(None), cv: Condvar::new() }
+    }
+    fn open(&self, action: u8) {
+        let mut g = self.st.lock().unwrap_or_else(|e| e.into_inner());
+        if g.is_none() {
+            *g = Some(action);
+        }
+        self.cv.notify_all();
+    }
+    fn wait(&self, d: Duration) -> Option<u8> {
+        let g = self.st.lock().unwrap_or_else(|e| e.into_inner());
+        if g.is_some() {
+            return *g;
+        }
+        let (g, _) = self.cv.wait_timeout(g, d).unwrap_or_else(|e| e.into_inner());
+        *g
+    }
+}
+const ACT_GO: u8 = 1;
+const ACT_PANIC: u8 = 2;
+const PARK_CAP: Duration = Duration::from_secs(50);
+const WINDOW: Duration = Duration::from_secs(15);
+
+/// Everything the server-side closures of one scenario share.
+struct Scn {
+    log: Mutex<Vec<(u64, Ev)>>,
+    hgate: Gate,
+    cgate: Gate,
+    reg: PeerRegistry,
+    /// which connect hook (0 = C0, 1 = C1, 2 = handshake hook) parks on `cgate`
+    gate_pos: Option<u8>,
+    /// which connect hook panics (after its gate, if it is also the gated one)
+    panic_pos: Option<u8>,
+    /// parked handlers return on their own once they see cancellation
+    coop: bool,
+    tok: AtomicU64,
+}
+
+impl Scn {
+    fn push(&self, ev: Ev) -> u64 {
+        let mut g = self.log.lock().unwrap_or_else(|e| e.into_inner());
+        let s = next_seq();
+        g.push((s, ev));
+        s
+    }
+    fn count(&self, f: impl Fn(&Ev) -> bool) -> usize {
+        self.log.lock().unwrap_or_else(|e| e.into_inner()).iter().filter(|(_, e)| f(e)).count()
+    }
+    fn snapshot(&self) -> Vec<(u64, Ev)> {
+        self.log.lock().unwrap_or_else(|e| e.into_inner()).clone()
+    }
+    fn alias_a(peer: u64) -> String {
+        format!("a-{peer}")
+    }
+    fn alias_b(peer: u64) -> String {
+        format!("b-{peer}")
+    }
+    /// (get, get_by(a), get_by(b)) — "present" means the lookup returns *this* peer.
+    fn probe(&self, peer: u64) -> (bool, bool, bool) {
+        let g = self.reg.get(PeerId(peer)).map(|h| h.peer_id().0 == peer).unwrap_or(false);
+        let a = self.reg.get_by(Self::alias_a(peer).as_str()).map(|h| h.peer_id().0 == peer).unwrap_or(false);
+        let b = self.reg.get_by(Self::alias_b(peer).as_str()).map(|h| h.peer_id().0 == peer).unwrap_or(false);
+        (g, a, b)
+    }
+    fn probe_ev(&self, peer: u64, site: &'static str) {
+        let s1 = next_seq();
+        let (get, by_a, by_b) = self.probe(peer);
+        self.push(Ev::Probe { peer, s1, get, by_a, by_b, site });
+    }
+    fn connect_stage(&self, peer: u64, pos: u8) {
+        if self.gate_pos == Some(pos) {
+            self.push(Ev::CGateEnter { peer });
+            let start = Instant::now();
+            let mut timeout = false;
+            while self.cgate.wait(Duration::from_millis(20)).is_none() {
+                if start.elapsed() > PARK_CAP {
+                    timeout = true;
+                    break;
+                }
+            }
+            self.push(Ev::CGateExit { peer, timeout });
+        }
+        if self.panic_pos == Some(pos) {
+            self.push(Ev::PanicNow { peer, site: "connect-callback" });
+            panic!("c15 scripted connect-callback panic");
+        }
+    }
+}
+
+fn ctx_peer(ctx: &CallContext<'_>) -> u64 {
+    ctx.peer().map(|p| p.peer_id().0).unwrap_or(u64::MAX)
+}
+
+fn park(sc: &Scn, ctx: &CallContext<'_>, off: bool) -> Result<Value, (ErrorCode, String)> {
+    let peer = ctx_peer(ctx);
+    let tok = sc.tok.fetch_add(1, Ordering::SeqCst);
+    sc.probe_ev(peer, if off { "bpark-enter" } else { "park-enter" });
+    sc.push(Ev::HEnter { peer, tok, off });
+    let start = Instant::now();
+    let (mut seen, mut action, mut timeout) = (false, None, false);
+    loop {
+        if let Some(a) = sc.hgate.wait(Duration::from_millis(3)) {
+            action = Some(a);
+            break;
+        }
+        if !seen && ctx.is_cancelled() {
+            seen = true;
+            sc.push(Ev::HCancelSeen { peer, tok });
+        }
+        if seen && sc.coop {
+            break;
+        }
+        if start.elapsed() > PARK_CAP {
+            timeout = true;
+            break;
+        }
+    }
+    let s1 = next_seq();
+    let cancelled = ctx.is_cancelled();
+    sc.push(Ev::HRelease { peer, tok, off, s1, cancelled, timeout });
+    sc.probe_ev(peer, if off { "bpark-release" } else { "park-release" });
+    if action == Some(ACT_PANIC) {
+        sc.push(Ev::PanicNow { peer, site: "parked-inline-handler" });
+        panic!("c15 scripted handler panic");
+    }
+    Ok(json!({ "tok": tok }))
+}
+
+fn flood(sc: &Scn, ctx: &CallContext<'_>) -> Result<Value, (ErrorCode, String)> {
+    let peer = ctx_peer(ctx);
+    let Some(h) = ctx.peer() else { return Ok(json!(null)) };
+    let body = vec![b' '; 128 * 1024];
+    let start = Instant::now();
+    let (mut pushed, mut consec) = (0u64, 0u32);
+    while consec < 4 && start.elapsed() < Duration::from_secs(12) {
+        match h.send_notify("/flood", NotifyBody::Json(body.clone())) {
+            Ok(()) => {
+                pushed += 1;
+                consec = 0;
+            }
+            Err(PeerSendError::Full) => {
+                consec += 1;
+                std::thread::sleep(Duration::from_millis(8));
+            }
+            Err(_) => break,
+        }
+    }
+    if consec >= 4 {
+        sc.push(Ev::QueueFull { peer, pushed });
+    }
+    Ok(json!(null))
+}
+
+fn build_server(sc: &Arc<Scn>, cap: usize) -> WebSocketServer {
+    let router = Router::new()
+        .with_json_ctx("/ping", {
+            let sc = sc.clone();
+            move |ctx: &CallContext<'_>, v: Value| {
+                sc.probe_ev(ctx_peer(ctx), "ping");
+                Ok(v)
+            }
+        })
+        .with_json_ctx_blocking("/bping", {
+            let sc = sc.clone();
+            move |ctx: &CallContext<'_>, v: Value| {
+                sc.probe_ev(ctx_peer(ctx), "bping");
+                Ok(v)
+            }
+        })
+        .with_json_ctx("/park", {
+            let sc = sc.clone();
+            move |ctx: &CallContext<'_>, _v: Value| park(&sc, ctx, false)
+        })
+        .with_json_ctx_blocking("/bpark", {
+            let sc = sc.clone();
+            move |ctx: &CallContext<'_>, _v: Value| park(&sc, ctx, true)
+        })
+        .with_json_ctx("/panic", {
+            let sc = sc.clone();
+            move |ctx: &CallContext<'_>, _v: Value| -> Result<Value, (ErrorCode, String)> {
+                sc.push(Ev::PanicNow { peer: ctx_peer(ctx), site: "inline-handler" });
+                panic!("c15 scripted handler panic");
+            }
+        })
+        .with_json_ctx_blocking("/flood", {
+            let sc = sc.clone();
+            move |ctx: &CallContext<'_>, _v: Value| flood(&sc, ctx)
+        });
+    let (s0, sd0, s1, sx, sd1, se) = (sc.clone(), sc.clone(), sc.clone(), sc.clone(), sc.clone(), sc.clone());
+    WebSocketServer::new(router)
+        .with_outbound_capacity(cap)
+        .on_peer_connect(move |peer: PeerHandle| {
+            let p = peer.peer_id().0;
+            s0.push(Ev::Connect0 { peer: p });
+            s0.connect_stage(p, 0);
+        })
+        .on_peer_disconnect(move |id: PeerId| {
+            let (get, by_a, by_b) = sd0.probe(id.0);
+            sd0.push(Ev::Disc0 { peer: id.0, get, by_a, by_b });
+        })
+        .with_peer_registry(sc.reg.clone())
+        .on_peer_connect(move |peer: PeerHandle| {
+            let p = peer.peer_id().0;
+            let ok_a = s1.reg.alias(peer.peer_id(), Scn::alias_a(p));
+            let ok_b = s1.reg.alias(peer.peer_id(), Scn::alias_b(p));
+            let (get, by_a, by_b) = s1.probe(p);
+            let hello_ok = peer.send_notify("/hello1", NotifyBody::Json(serde_json::to_vec(&json!({ "peer": p })).unwrap())).is_ok();
+            s1.push(Ev::Connect1 { peer: p, alias_ok: ok_a && ok_b, hello_ok, get, by_a, by_b });
+            s1.connect_stage(p, 1);
+        })
+        .on_peer_connect_with_handshake(move |peer: &PeerHandle, hs: &HandshakeContext| {
+            let p = peer.peer_id().0;
+            let client = hs.query().and_then(|q| q.strip_prefix("c=")).and_then(|s| s.parse::<i64>().ok()).unwrap_or(-1);
+            sx.reg.alias(peer.peer_id(), format!("c-{client}"));
+            let hello_ok = peer.send_notify("/hello2", NotifyBody::Json(serde_json::to_vec(&json!({ "peer": p })).unwrap())).is_ok();
+            sx.push(Ev::ConnectCtx { peer: p, hello_ok, client });
+            sx.connect_stage(p, 2);
+        })
+        .on_peer_disconnect(move |id: PeerId| {
+            let (get, by_a, by_b) = sd1.probe(id.0);
+            let n_alias = sd1.reg.aliases_for(id).len();
+            sd1.push(Ev::Disc1 { peer: id.0, get, by_a, by_b, n_alias });
+        })
+        .on_error(move |e: &ConnectionError| {
+            let kind = match e {
+                ConnectionError::Handshake(_) => "handshake",
+                ConnectionError::Connection(_) => "connection",
+                ConnectionError::HandlerPanic { .. } => "handler-panic",
+                ConnectionError::Saturation { .. } => "saturation",
+                ConnectionError::OutboundTooLarge { .. } => "outbound-too-large",
+                _ => "other",
+            };
+            se.push(Ev::Error { kind });
+        })
+}
+
+// ------------------------------------------------------------------ serving entry points
+
+struct Running {
+    addr: SocketAddr,
+    task: tokio::task::JoinHandle<()>,
+    shutdown_tx: Option<oneshot::Sender<()>>,
+    token: Option<ShutdownToken>,
+}
+
+/// Minimal hand-written HTTP upgrade, the way an HTTP framework's WebSocket route answers it.
+async fn hand_upgrade(mut stream: TcpStream) -> std::io::Result<(TcpStream, http::Request<()>, Vec<u8>)> {
+    let mut buf = Vec::with_capacity(1024);
+    let end = loop {
+        if let Some(i) = buf.windows(4).position(|w| w == b"\r\n\r\n") {
+            break i + 4;
+        }
+        if buf.len() > 16 * 1024 {
+            return Err(std::io::Error::other("request head too large"));
+        }
+        let mut chunk = [0u8; 1024];
+        let n = stream.read(&mut chunk).await?;
+        if n == 0 {
+            return Err(std::io::Error::other("closed during the upgrade request"));
+        }
+        buf.extend_from_slice(&chunk[..n]);
+    };
+    let leftover = buf[end..].to_vec();
+    let head = String::from_utf8_lossy(&buf[..end]).to_string();
+    let mut lines = head.split("\r\n");
+    let request_line = lines.next().unwrap_or("");
+    let mut parts = request_line.split_whitespace();
+    let (method, target) = (parts.next().unwrap_or(""), parts.next().unwrap_or(""));
+    if method != "GET" || !target.starts_with("/repe") {
+        let _ = stream.write_all(b"HTTP/1.1 404 Not Found\r\nContent-Length: 0\r\n\r\n").await;
+        return Err(std::io::Error::other("not the repe route"));
+    }
+    let mut builder = http::Request::builder().method("GET").uri(target);
+    let (mut key, mut upgrade) = (String::new(), false);
+    for line in lines {
+        let Some((name, value)) = line.split_once(':') else { continue };
+        let value = value.trim();
+        if name.eq_ignore_ascii_case("sec-websocket-key") {
+            key = value.to_owned();
+        }
+        if name.eq_ignore_ascii_case("upgrade") && value.eq_ignore_ascii_case("websocket") {
+            upgrade = true;
+        }
+        builder = builder.header(name, value);
+    }
+    if key.is_empty() || !upgrade {
+        let _ = stream.write_all(b"HTTP/1.1 400 Bad Request\r\nContent-Length: 0\r\n\r\n").await;
+        return Err(std::io::Error::other("not a websocket upgrade"));
+    }
+    let request = builder.body(()).map_err(|e| std::io::Error::other(e.to_string()))?;
+    let accept = derive_accept_key(key.as_bytes());
+    stream
+        .write_all(format!("HTTP/1.1 101 Switching Protocols\r\nUpgrade: websocket\r\nConnection: Upgrade\r\nSec-WebSocket-Accept: {accept}\r\n\r\n").as_bytes())
+        .await?;
+    Ok((stream, request, leftover))
+}
+
+/// Start the scenario's server on the *server* runtime (this future must be spawned there).
+async fn start_server(sc: Arc<Scn>, entry: Entry, cap: usize, with_ctx: bool, drain_timeout: Duration, variant: u64, need_token: bool) -> Result<Running, String> {
+    let listener = TcpListener::bind("127.0.0.1:0").await.map_err(|e| format!("bind: {e}"))?;
+    let addr = listener.local_addr().map_err(|e| format!("local_addr: {e}"))?;
+    let server = build_server(&sc, cap);
+    match entry {
+        Entry::ServeListener => {
+            let task = tokio::spawn(async move {
+                let _ = server.serve_listener(listener, "/repe").await;
+            });
+            Ok(Running { addr, task, shutdown_tx: None, token: None })
+        }
+        Entry::DrainListener => {
+            let (tx, rx) = oneshot::channel::<()>();
+            let sc2 = sc.clone();
+            let task = tokio::spawn(async move {
+                let _ = server
+                    .serve_listener_with_graceful_drain(
+                        listener,
+                        "repe/",
+                        async move {
+                            let _ = rx.await;
+                        },
+                        drain_timeout,
+                    )
+                    .await;
+                sc2.push(Ev::ServeReturned);
+            });
+            Ok(Running { addr, task, shutdown_tx: Some(tx), token: None })
+        }
+        Entry::AcceptServe | Entry::AcceptServeCancel | Entry::Adopt => {
+            let shared: SharedWebSocketServer = server.into_shared();
+            let token = ShutdownToken::new();
+            let tok2 = token.clone();
+            let task = tokio::spawn(async move {
+                loop {
+                    let Ok((stream, _)) = listener.accept().await else { break };
+                    let (shared, token, sc) = (shared.clone(), tok2.clone(), sc.clone());
+                    tokio::spawn(async move {
+                        let r = match entry {
+                            Entry::AcceptServe => {
+                                if with_ctx {
+                                    match shared.accept_with_handshake(stream, "/repe").await {
+                                        Ok((ws, hs)) => shared.serve_connection_with_handshake(ws, hs).await,
+                                        Err(_) => {
+                                            sc.push(Ev::Error { kind: "handshake" });
+                                            return;
+                                        }
+                                    }
+                                } else {
+                                    match WebSocketServer::accept(stream, "/repe/").await {
+                                        Ok(ws) => shared.serve_connection(ws).await,
+                                        Err(_) => {
+                                            sc.push(Ev::Error { kind: "handshake" });
+                                            return;
+                                        }
+                                    }
+                                }
+                            }
+                            Entry::AcceptServeCancel => {
+                                if with_ctx {
+                                    match WebSocketServer::accept_with_handshake(stream, "repe").await {
+                                        Ok((ws, hs)) => shared.serve_connection_with_cancel_and_handshake(ws, hs, &token).await,
+                                        Err(_) => {
+                                            sc.push(Ev::Error { kind: "handshake" });
+                                            return;
+                                        }
+                                    }
+                                } else {
+                                    match shared.accept(stream, "/repe").await {
+                                        Ok(ws) => shared.serve_connection_with_cancel(ws, &token).await,
+                                        Err(_) => {
+                                            sc.push(Ev::Error { kind: "handshake" });
+                                            return;
+                                        }
+                                    }
+                                }
+                            }
+                            _ => {
+                                let Ok((stream, request, leftover)) = hand_upgrade(stream).await else {
+                                    sc.push(Ev::Error { kind: "handshake" });
+                                    return;
+                                };
+                                let ws = if !leftover.is_empty() || variant & 1 == 1 {
+                                    shared.adopt_upgraded_partially_read(stream, leftover).await
+                                } else {
+                                    shared.adopt_upgraded(stream).await
+                                };
+                                if with_ctx {
+                                    let hs = HandshakeContext::from_http_request(&request);
+                                    shared.serve_connection_with_cancel_and_handshake(ws, hs, &token).await
+                                } else if variant & 2 == 2 && !need_token {
+                                    shared.serve_connection(ws).await
+                                } else {
+                                    shared.serve_connection_with_cancel(ws, &token).await
+                                }
+                            }
+                        };
+                        sc.push(Ev::ConnServed { ok: r.is_ok() });
+                    });
+                }
+            });
+            // a plain serve_connection under Adopt is not tied to the token
+            let token_effective = !(entry == Entry::Adopt && !with_ctx && variant & 2 == 2 && !need_token) && entry != Entry::AcceptServe;
+            Ok(Running { addr, task, shutdown_tx: None, token: token_effective.then_some(token) })
+        }
+    }
+}
+
+// ------------------------------------------------------------------ raw client
+
+#[derive(Clone, Debug)]
+struct Seen {
+    notify: bool,
+    id: u64,
+    ec: u32,
+    path: String,
+    peer: Option<u64>,
+}
+
+struct Cli {
+    idx: usize,
+    ws: Option<WebSocketStream<TcpStream>>,
+    frames: Vec<Seen>,
+    unparsable: u64,
+    handshake_ok: bool,
+    bystander: bool,
+    /// frames up to and including the first response were read
+    got_first_response: bool,
+    note: Option<String>,
+}
+
+fn req(path: &str, id: u64, notify: bool, body: &Value) -> Vec<u8> {
+    let h = SpecHeader { spec: SPEC, version: 1, notify: notify as u8, id, query_format: 1, body_format: 2, ..Default::default() };
+    frame(h, path.as_bytes(), serde_json::to_vec(body).unwrap().as_slice())
+}
+
+async fn connect_client(addr: SocketAddr, idx: usize, path: &str, small_rcvbuf: bool) -> Result<WebSocketStream<TcpStream>, String> {
+    let sock = TcpSocket::new_v4().map_err(|e| format!("socket: {e}"))?;
+    if small_rcvbuf {
+        let _ = sock.set_recv_buffer_size(8 * 1024);
+    }
+    let stream = tokio::time::timeout(Duration::from_secs(10), sock.connect(addr)).await.map_err(|_| "tcp connect timeout".to_string())?.map_err(|e| format!("tcp connect: {e}"))?;
+    let _ = stream.set_nodelay(true);
+    let url = format!("ws://{addr}{path}?c={idx}");
+    let (ws, _resp) = tokio::time::timeout(Duration::from_secs(10), tokio_tungstenite::client_async(url, stream)).await.map_err(|_| "ws handshake timeout".to_string())?.map_err(|e| format!("ws handshake: {e}"))?;
+    Ok(ws)
+}
+
+impl Cli {
+    async fn send_bin(&mut self, bytes: Vec<u8>) -> bool {
+        match self.ws.as_mut() {
+            Some(ws) => matches!(tokio::time::timeout(Duration::from_secs(5), ws.send(Ws::Binary(bytes))).await, Ok(Ok(()))),
+            None => false,
+        }
+    }
+    /// Read frames until the response with `id` (Ok), the connection ends or `window` passes (Err).
+    async fn read_until_response(&mut self, id: u64, window: Duration) -> Result<(), String> {
+        let deadline = tokio::time::Instant::now() + window;
+        let Some(ws) = self.ws.as_mut() else { return Err("no socket".into()) };
+        loop {
+            let m = match tokio::time::timeout_at(deadline, ws.next()).await {
+                Err(_) => return Err("timeout".into()),
+                Ok(None) => return Err("closed".into()),
+                Ok(Some(Err(e))) => return Err(format!("error: {e}")),
+                Ok(Some(Ok(m))) => m,
+            };
+            match m {
+                Ws::Binary(b) => match valid_parse(&b, true) {
+                    Some((h, ql, _)) => {
+                        let path = String::from_utf8_lossy(&b[48..48 + ql]).to_string();
+                        let peer = if h.notify != 0 { serde_json::from_slice::<Value>(&b[48 + ql..]).ok().and_then(|v| v["peer"].as_u64()) } else { None };
+                        self.frames.push(Seen { notify: h.notify != 0, id: h.id, ec: h.ec, path, peer });
+                        if h.notify == 0 && h.id == id {
+                            return Ok(());
+                        }
+                    }
+                    None => self.unparsable += 1,
+                },
+                Ws::Close(_) => return Err("close frame".into()),
+                _ => {}
+            }
+        }
+    }
+    /// Drain until the server closes, bounded; used after cancel causes and a clean Close.
+    async fn drain_until_closed(&mut self, window: Duration) {
+        let deadline = tokio::time::Instant::now() + window;
+        if let Some(ws) = self.ws.as_mut() {
+            while let Ok(Some(Ok(_))) = tokio::time::timeout_at(deadline, ws.next()).await {}
+        }
+    }
+    fn peer(&self) -> Option<u64> {
+        self.frames.iter().find_map(|f| f.peer)
+    }
+}
+
+fn set_linger0(s: &TcpStream) {
+    use std::os::fd::AsRawFd;
+    let l = libc::linger { l_onoff: 1, l_linger: 0 };
+    unsafe {
+        libc::setsockopt(s.as_raw_fd(), libc::SOL_SOCKET, libc::SO_LINGER, &l as *const _ as *const libc::c_void, std::mem::size_of::<libc::linger>() as libc::socklen_t);
+    }
+}
+
+fn corrupt_ws_bytes(r: &mut Rng) -> (u64, Vec<u8>) {
+    let v = r.below(8);
+    let m = [r.next_u64() as u8, 3, 5, 7];
+    let bytes = match v {
+        0 => vec![0x83, 0x82, m[0], m[1], m[2], m[3], 1, 2],                // reserved opcode 3
+        1 => vec![0xC2, 0x81, m[0], m[1], m[2], m[3], 9],                   // RSV1 without extension
+        2 => vec![0x82, 0x03, 1, 2, 3],                                     // unmasked client frame
+        3 => {
+            let mut b = vec![0x89, 0xFE, 0x00, 0x7E, m[0], m[1], m[2], m[3]]; // 126-byte ping
+            b.extend(std::iter::repeat_n(0u8, 126));
+            b
+        }
+        4 => vec![0x09, 0x80, m[0], m[1], m[2], m[3]],                      // fragmented control frame
+        5 => vec![0x80, 0x81, m[0], m[1], m[2], m[3], 1],                   // continuation without a start
+        6 => {
+            let mut b = r.bytes(64);
+            b[0] = 0xF0 | (b[0] & 0x0f);
+            b[1] = 0x85; // masked, 5 payload bytes: the frame is complete, so the parser must judge it
+            b
+        }
+        _ => vec![0x82, 0xFF, 0x7F, 0xFF, 0xFF, 0xFF, 0xFF, 0xFF, 0xFF, 0xFF, m[0], m[1], m[2], m[3]], // 2^63-1 byte frame
+    };
+    (v, bytes)
+}
+
+fn malformed_repe_bytes(r: &mut Rng) -> (u64, Vec<u8>) {
+    let v = r.below(6);
+    let good = req("/ping", 77, false, &json!({}));
+    let bytes = match v {
+        0 => vec![],
+        1 => r.bytes(10),
+        2 => {
+            let mut b = good.clone();
+            b[8] ^= 0xff; // magic
+            b
+        }
+        3 => {
+            let mut b = good.clone();
+            b[0] = b[0].wrapping_add(1); // length disagrees
+            b
+        }
+        4 => {
+            let mut b = good.clone();
+            b.truncate(b.len() - 1); // short body
+            b
+        }
+        _ => {
+            let mut b = good.clone();
+            b.extend_from_slice(b"trailing"); // extra bytes after the frame
+            b
+        }
+    };
+    (v, bytes)
+}
+
+async fn apply_client_cause(c: &mut Cli, cause: Cause, seed: u64) -> u64 {
+    let mut r = Rng::new(seed);
+    match cause {
+        Cause::Close => {
+            if let Some(ws) = c.ws.as_mut() {
+                let _ = tokio::time::timeout(Duration::from_secs(5), ws.close(None)).await;
+            }
+            0
+        }
+        Cause::TcpDrop => {
+            c.ws = None;
+            0
+        }
+        Cause::Rst => {
+            if let Some(ws) = c.ws.as_mut() {
+                set_linger0(ws.get_mut());
+            }
+            c.ws = None;
+            0
+        }
+        Cause::Text => {
+            if let Some(ws) = c.ws.as_mut() {
+                let _ = tokio::time::timeout(Duration::from_secs(5), ws.send(Ws::Text("not a binary message".into()))).await;
+            }
+            0
+        }
+        Cause::CorruptWs => {
+            let (v, bytes) = corrupt_ws_bytes(&mut r);
+            if let Some(ws) = c.ws.as_mut() {
+                let s = ws.get_mut();
+                let _ = tokio::time::timeout(Duration::from_secs(5), s.write_all(&bytes)).await;
+                let _ = s.flush().await;
+            }
+            v
+        }
+        Cause::MalformedRepe => {
+            let (v, bytes) = malformed_repe_bytes(&mut r);
+            c.send_bin(bytes).await;
+            v
+        }
+        Cause::InlinePanic => {
+            let notify = r.coin();
+            c.send_bin(req("/panic", 9, notify, &json!({}))).await;
+            notify as u64
+        }
+        _ => 0,
+    }
+}
+
+async fn bad_handshake(addr: SocketAddr, kind: BadHs, seed: u64) -> bool {
+    let mut r = Rng::new(seed);
+    match kind {
+        BadHs::WrongPath => connect_client(addr, 999, "/nope", false).await.is_err(),
+        other => {
+            let Ok(Ok(mut s)) = tokio::time::timeout(Duration::from_secs(10), TcpStream::connect(addr)).await else { return false };
+            let payload: Vec<u8> = match other {
+                BadHs::Garbage => {
+                    let mut b = r.bytes(200);
+                    b.extend_from_slice(b"\r\n\r\n");
+                    b
+                }
+                BadHs::EarlyClose => vec![],
+                BadHs::PartialRequest => b"GET /repe HTTP/1.1\r\nHost: x\r\nUpgrade: websocket\r\nConnection: Upg".to_vec(),
+                _ => b"GET /repe HTTP/1.1\r\nHost: x\r\n\r\n".to_vec(),
+            };
+            if !payload.is_empty() {
+                let _ = s.write_all(&payload).await;
+                let _ = s.flush().await;
+            }
+            if matches!(other, BadHs::Garbage | BadHs::NoUpgrade) {
+                // give the server the chance to answer (400) before closing
+                let mut buf = [0u8; 512];
+                let _ = tokio::time::timeout(Duration::from_millis(500), s.read(&mut buf)).await;
+            }
+            drop(s);
+            true
+        }
+    }
+}
+
+// ------------------------------------------------------------------ scenario
+
+#[derive(Clone, Debug, Hash, PartialEq, Eq)]
+enum Kind {
+    Cell(Cause, Phase),
+    Bad(BadHs),
+}
+
+#[derive(Clone, Debug)]
+struct Spec {
+    kind: Kind,
+    entry: Entry,
+    conns: usize,
+    seed: u64,
+}
+
+struct Env {
+    srv: tokio::runtime::Handle,
+    block_budget: Arc<Semaphore>,
+    /// scenarios in which a property-relevant bounded wait expired (each costs a full window)
+    expired: AtomicU64,
+}
+
+struct Out {
+    spec: Spec,
+    cfg: Value,
+    sc: Arc<Scn>,
+    clients: Vec<CliRec>,
+    expected_hellos: Vec<&'static str>,
+    n_ok: usize,
+    bad_attempts: usize,
+    failed_waits: Vec<&'static str>,
+    harness_err: Option<String>,
+    final_len: usize,
+    final_alias_c: usize,
+    token_attached: bool,
+    wall_ms: u64,
+    tolerated_frame_cause: bool,
+}
+
+struct CliRec {
+    idx: usize,
+    frames: Vec<Seen>,
+    unparsable: u64,
+    handshake_ok: bool,
+    bystander: bool,
+    got_first_response: bool,
+    note: Option<String>,
+}
+
+/// The full bounded-progress window, or a short one once a property-relevant wait of this scenario has already
+/// expired (the verdict is already decided; do not spend another window on it).
+fn window(out: &Out) -> Duration {
+    if out.failed_waits.iter().any(|w| !w.starts_with("setup:") && !w.starts_with("bad-handshake:")) { Duration::from_secs(1) } else { WINDOW }
+}
+
+/// Record an expired wait; the first property-relevant one of a scenario is counted globally right away so the
+/// driver can stop starting scenarios once the verdict is decided anyway.
+fn fail(out: &mut Out, env: &Env, what: &'static str) {
+    let relevant = |w: &str| !w.starts_with("setup:") && !w.starts_with("bad-handshake:");
+    if relevant(what) && !out.failed_waits.iter().any(|w| relevant(w)) {
+        env.expired.fetch_add(1, Ordering::Relaxed);
+    }
+    out.failed_waits.push(what);
+}
+
+async fn wait_until(window: Duration, mut f: impl FnMut() -> bool) -> bool {
+    let deadline = Instant::now() + window;
+    loop {
+        if f() {
+            return true;
+        }
+        if Instant::now() > deadline {
+            return false;
+        }
+        tokio::time::sleep(Duration::from_millis(3)).await;
+    }
+}
+
+fn all_disconnected(sc: &Scn) -> bool {
+    let log = sc.log.lock().unwrap_or_else(|e| e.into_inner());
+    let mut st: HashMap<u64, bool> = HashMap::new();
+    for (_, e) in log.iter() {
+        match e {
+            Ev::Connect0 { peer } => {
+                st.entry(*peer).or_insert(false);
+            }
+            Ev::Disc1 { peer, .. } => {
+                st.insert(*peer, true);
+            }
+            _ => {}
+        }
+    }
+    st.values().all(|d| *d)
+}
+
+fn main_disconnected(sc: &Scn, exclude: &[u64]) -> bool {
+    let log = sc.log.lock().unwrap_or_else(|e| e.into_inner());
+    let mut st: HashMap<u64, bool> = HashMap::new();
+    for (_, e) in log.iter() {
+        match e {
+            Ev::Connect0 { peer } if !exclude.contains(peer) => {
+                st.entry(*peer).or_insert(false);
+            }
+            Ev::Disc1 { peer, .. } if !exclude.contains(peer) => {
+                st.insert(*peer, true);
+            }
+            _ => {}
+        }
+    }
+    st.values().all(|d| *d)
+}
+
+async fn run_scenario(spec: Spec, env: Arc<Env>) -> Out {
+    let t0 = Instant::now();
+    let mut out = run_scenario_inner(spec, env.clone()).await;
+    out.wall_ms = t0.elapsed().as_millis() as u64;
+    out
+}
+
+async fn run_scenario_inner(spec: Spec, env: Arc<Env>) -> Out {
+    let mut r = Rng::new(spec.seed);
+    let (cause, phase) = match &spec.kind {
+        Kind::Cell(c, p) => (Some(*c), *p),
+        Kind::Bad(_) => (None, Phase::Idle),
+    };
+    let entry = spec.entry;
+    let n = spec.conns;
+    // --- derived configuration (all from the seed)
+    let with_ctx = match entry {
+        Entry::ServeListener | Entry::DrainListener => true,
+        _ => r.coin(),
+    };
+    let variant = r.below(4);
+    let connect_panic = cause == Some(Cause::ConnectPanic);
+    let hooks_avail: &[u8] = if with_ctx { &[0, 1, 2] } else { &[0, 1] };
+    let panic_pos = connect_panic.then(|| *r.pick(hooks_avail));
+    // brief connect gate: hold every connection inside C1 until the client's first request is already
+    // in the socket, so reader start and writer start race as hard as possible
+    let brief_gate = !connect_panic && matches!(phase, Phase::Idle | Phase::Inline | Phase::OffReader) && cause.is_some() && r.chance(1, 3);
+    let gate_pos = if connect_panic {
+        (phase == Phase::ConnectCb).then_some(panic_pos.unwrap())
+    } else if phase == Phase::ConnectCb {
+        Some(*r.pick(hooks_avail))
+    } else if brief_gate {
+        Some(1)
+    } else {
+        None
+    };
+    let coop = match cause {
+        Some(Cause::GracefulDrain) => true,
+        Some(Cause::DrainAbort) => false,
+        _ => r.coin(),
+    };
+    let cap = if phase == Phase::QueueFull { *r.pick(&[2usize, 3, 4, 8]) } else { *r.pick(&[2usize, 4, 16, 256]) };
+    let drain_timeout = match cause {
+        Some(Cause::DrainAbort) => Duration::from_millis(150),
+        Some(Cause::GracefulDrain) => Duration::from_secs(20),
+        _ => Duration::from_secs(2),
+    };
+    let wedge_reader = phase == Phase::QueueFull && r.chance(1, 4);
+    let bystanders = if cause.map(is_client_cause).unwrap_or(false) && phase != Phase::ConnectCb && gate_pos.is_none() { r.usize_below(3) } else { 0 };
+    let extra_bad = if entry != Entry::Adopt && cause.is_some() && r.chance(1, 3) { 1 + r.usize_below(2) } else { 0 };
+    let blocks = gate_pos.is_some() || phase == Phase::Inline;
+
+    let sc = Arc::new(Scn {
+        log: Mutex::new(Vec::new()),
+        hgate: Gate::new(),
+        cgate: Gate::new(),
+        reg: PeerRegistry::new(),
+        gate_pos,
+        panic_pos,
+        coop,
+        tok: AtomicU64::new(1),
+    });
+    let cfg = json!({
+        "with_handshake_hook": with_ctx, "variant": variant, "panic_pos": panic_pos, "gate_pos": gate_pos, "coop": coop,
+        "outbound_capacity": cap, "wedge_reader": wedge_reader, "bystanders": bystanders, "extra_bad_handshakes": extra_bad,
+    });
+    let mut out = Out {
+        spec: spec.clone(),
+        cfg,
+        sc: sc.clone(),
+        clients: vec![],
+        expected_hellos: if with_ctx { vec!["/hello1", "/hello2"] } else { vec!["/hello1"] },
+        n_ok: 0,
+        bad_attempts: 0,
+        failed_waits: vec![],
+        harness_err: None,
+        final_len: 0,
+        final_alias_c: 0,
+        token_attached: false,
+        wall_ms: 0,
+        tolerated_frame_cause: false,
+    };
+
+    // workers that will be blocked inside callbacks/inline handlers are budgeted globally
+    let _permit = if blocks {
+        match env.block_budget.clone().acquire_many_owned((n + 1) as u32).await {
+            Ok(p) => Some(p),
+            Err(_) => None,
+        }
+    } else {
+        None
+    };
+
+    let running = match env.srv.spawn(start_server(sc.clone(), entry, cap, with_ctx, drain_timeout, variant, cause == Some(Cause::TokenCancel))).await {
+        Ok(Ok(rn)) => rn,
+        Ok(Err(e)) => {
+            out.harness_err = Some(e);
+            return out;
+        }
+        Err(e) => {
+            out.harness_err = Some(format!("server start task: {e}"));
+            return out;
+        }
+    };
+    let Running { addr, task: serve_task, mut shutdown_tx, token } = running;
+    out.token_attached = token.is_some();
+
+    // --- connect all clients concurrently
+    let total = n + bystanders;
+    let small = phase == Phase::QueueFull;
+    let conns = join_all((0..total).map(|i| connect_client(addr, i, "/repe", small && i < n))).await;
+    let mut clients: Vec<Cli> = conns
+        .into_iter()
+        .enumerate()
+        .map(|(i, c)| {
+            let (ws, note) = match c {
+                Ok(ws) => (Some(ws), None),
+                Err(e) => (None, Some(e)),
+            };
+            Cli { idx: i, handshake_ok: ws.is_some(), ws, frames: vec![], unparsable: 0, bystander: i >= n, got_first_response: false, note }
+        })
+        .collect();
+    out.n_ok = clients.iter().filter(|c| c.handshake_ok).count();
+    if out.n_ok != total {
+        out.harness_err = Some(format!("only {} of {total} client handshakes succeeded: {:?}", out.n_ok, clients.iter().find_map(|c| c.note.clone())));
+    }
+    let reads = !connect_panic && !matches!(phase, Phase::QueueFull | Phase::ConnectCb);
+
+    // --- phase setup
+    if out.harness_err.is_none() {
+        let reads_all = reads || matches!(spec.kind, Kind::Bad(_));
+        if reads_all || bystanders > 0 {
+            // first request pipelined right behind the handshake; mix inline and off-reader first responders
+            join_all(clients.iter_mut().filter(|c| reads_all || c.bystander).map(|c| async move {
+                let path = if c.idx % 3 == 2 { "/bping" } else { "/ping" };
+                c.send_bin(req(path, 1, false, &json!({ "c": c.idx }))).await;
+            }))
+            .await;
+            if brief_gate {
+                if !wait_until(WINDOW, || sc.count(|e| matches!(e, Ev::CGateEnter { .. })) >= total).await {
+                    fail(&mut out, &env, "setup:connect-gate-enter");
+                }
+                for p in 0..total as u64 {
+                    sc.probe_ev(p, "driver-during-connect");
+                }
+                sc.cgate.open(ACT_GO);
+            }
+            join_all(clients.iter_mut().filter(|c| reads_all || c.bystander).map(|c| async move {
+                match c.read_until_response(1, WINDOW).await {
+                    Ok(()) => c.got_first_response = true,
+                    Err(e) => c.note = Some(format!("first response: {e}")),
+                }
+            }))
+            .await;
+            if clients.iter().any(|c| (reads_all || c.bystander) && !c.got_first_response) {
+                fail(&mut out, &env, "setup:first-response");
+            }
+        }
+        match phase {
+            Phase::Inline | Phase::OffReader if !connect_panic => {
+                let path = if phase == Phase::Inline { "/park" } else { "/bpark" };
+                join_all(clients.iter_mut().filter(|c| !c.bystander).map(|c| async move {
+                    let notify = c.idx % 2 == 1;
+                    c.send_bin(req(path, 2, notify, &json!({}))).await;
+                }))
+                .await;
+                if !wait_until(WINDOW, || sc.count(|e| matches!(e, Ev::HEnter { .. })) >= n).await {
+                    fail(&mut out, &env, "setup:handler-parked");
+                }
+            }
+            Phase::QueueFull => {
+                join_all(clients.iter_mut().filter(|c| !c.bystander).map(|c| async move {
+                    c.send_bin(req("/flood", 2, true, &json!({}))).await;
+                }))
+                .await;
+                if !wait_until(WINDOW, || sc.count(|e| matches!(e, Ev::QueueFull { .. })) >= n).await {
+                    fail(&mut out, &env, "setup:queue-full");
+                }
+                if wedge_reader {
+                    // a response the reader cannot queue: the reader itself is now parked on the full channel
+                    join_all(clients.iter_mut().filter(|c| !c.bystander).map(|c| async move {
+                        c.send_bin(req("/ping", 3, false, &json!({}))).await;
+                    }))
+                    .await;
+                    let _ = wait_until(Duration::from_secs(5), || sc.count(|e| matches!(e, Ev::Probe { site: "ping", .. })) >= n).await;
+                }
+            }
+            Phase::ConnectCb if gate_pos.is_some() => {
+                if !wait_until(WINDOW, || sc.count(|e| matches!(e, Ev::CGateEnter { .. })) >= n).await {
+                    fail(&mut out, &env, "setup:connect-gate-enter");
+                }
+                for p in 0..n as u64 {
+                    sc.probe_ev(p, "driver-during-connect");
+                }
+            }
+            _ => {}
+        }
+        // every connection's connect hook has been seen before the exit cause is applied
+        if !wait_until(WINDOW, || sc.count(|e| matches!(e, Ev::Connect0 { .. })) >= total).await {
+            fail(&mut out, &env, "setup:connect-callback");
+        }
+    }
+
+    // --- failed handshakes against the same server while the good connections are in phase
+    if out.harness_err.is_none() {
+        let kinds: Vec<BadHs> = match &spec.kind {
+            Kind::Bad(k) => vec![*k; 3 + r.usize_below(6)],
+            _ => (0..extra_bad).map(|_| *r.pick(&BAD_HS)).collect(),
+        };
+        if !kinds.is_empty() {
+            let before = sc.count(|e| matches!(e, Ev::Error { kind: "handshake" }));
+            let seeds: Vec<u64> = kinds.iter().map(|_| r.next_u64()).collect();
+            let done = join_all(kinds.iter().zip(seeds).map(|(k, s)| bad_handshake(addr, *k, s))).await;
+            out.bad_attempts = done.iter().filter(|d| **d).count();
+            let want = before + out.bad_attempts;
+            // the server reports each failed handshake; wait for that so "no callback" is judged after the fact
+            if !wait_until(Duration::from_secs(10), || sc.count(|e| matches!(e, Ev::Error { kind: "handshake" })) >= want).await {
+                fail(&mut out, &env, "bad-handshake:server-report");
+            }
+        }
+    }
+
+    // --- the exit cause
+    let peers_of_bystanders: Vec<u64> = clients.iter().filter(|c| c.bystander).filter_map(|c| c.peer()).collect();
+    let mut serve_returned_expected = false;
+    if out.harness_err.is_none() {
+        match cause {
+            None => {
+                // failed-handshake scenario: the good connections must still be alive, then close cleanly
+                join_all(clients.iter_mut().map(|c| async move {
+                    c.send_bin(req("/ping", 5, false, &json!({}))).await;
+                    if c.read_until_response(5, WINDOW).await.is_ok() {
+                        if let Some(p) = c.peer() {
+                            return Some(p);
+                        }
+                    }
+                    None
+                }))
+                .await
+                .into_iter()
+                .flatten()
+                .for_each(|p| {
+                    sc.push(Ev::BystanderAlive { peer: p });
+                });
+                join_all(clients.iter_mut().map(|c| async move {
+                    apply_client_cause(c, Cause::Close, 0).await;
+                    c.drain_until_closed(Duration::from_secs(3)).await;
+                    c.ws = None;
+                }))
+                .await;
+            }
+            Some(c) if is_client_cause(c) => {
+                if !(c == Cause::InlinePanic && phase == Phase::Inline) {
+                    let seeds: Vec<u64> = (0..total).map(|_| r.next_u64()).collect();
+                    join_all(clients.iter_mut().filter(|cl| !cl.bystander).map(|cl| {
+                        let s = seeds[cl.idx];
+                        async move {
+                            apply_client_cause(cl, c, s).await;
+                        }
+                    }))
+                    .await;
+                }
+                match phase {
+                    Phase::Inline => sc.hgate.open(if c == Cause::InlinePanic { ACT_PANIC } else { ACT_GO }),
+                    Phase::ConnectCb => sc.cgate.open(ACT_GO),
+                    Phase::OffReader => {
+                        // the disconnect must not wait for the parked handler
+                        let first = if is_frame_cause(c) { Duration::from_secs(3) } else { WINDOW };
+                        if !wait_until(first, || main_disconnected(&sc, &peers_of_bystanders)).await {
+                            if is_frame_cause(c) {
+                                // the server did not treat the frame as fatal: the connection has not ended yet,
+                                // so end it by dropping the socket and judge that exit instead
+                                out.tolerated_frame_cause = true;
+                                for cl in clients.iter_mut().filter(|cl| !cl.bystander) {
+                                    cl.ws = None;
+                                }
+                                if !wait_until(window(&out), || main_disconnected(&sc, &peers_of_bystanders)).await {
+                                    fail(&mut out, &env, "disconnect-while-handler-parked");
+                                }
+                            } else {
+                                fail(&mut out, &env, "disconnect-while-handler-parked");
+                            }
+                        }
+                        let w = window(&out);
+                        if !wait_until(w, || sc.count(|e| matches!(e, Ev::HCancelSeen { .. })) >= n).await {
+                            fail(&mut out, &env, "cancel-seen");
+                        }
+                        sc.hgate.open(ACT_GO);
+                    }
+                    Phase::QueueFull => {
+                        // steering only: give a frame cause the chance to be the thing the server sees first
+                        let _ = wait_until(Duration::from_millis(if wedge_reader { 150 } else { 400 }), || main_disconnected(&sc, &peers_of_bystanders)).await;
+                    }
+                    Phase::Idle => {}
+                }
+                // bystanders must survive their neighbours' exits
+                let alive: Vec<u64> = join_all(clients.iter_mut().filter(|cl| cl.bystander).map(|cl| async move {
+                    cl.send_bin(req("/ping", 6, false, &json!({}))).await;
+                    if cl.read_until_response(6, WINDOW).await.is_ok() { cl.peer() } else { None }
+                }))
+                .await
+                .into_iter()
+                .flatten()
+                .collect();
+                for p in alive {
+                    sc.push(Ev::BystanderAlive { peer: p });
+                }
+                // finish the main clients
+                join_all(clients.iter_mut().filter(|cl| !cl.bystander).map(|cl| async move {
+                    if c == Cause::Close && phase != Phase::QueueFull {
+                        cl.drain_until_closed(Duration::from_secs(3)).await;
+                    }
+                    cl.ws = None;
+                }))
+                .await;
+            }
+            Some(Cause::ConnectPanic) => {
+                sc.cgate.open(ACT_GO);
+            }
+            Some(Cause::TokenCancel) => {
+                if let Some(t) = &token {
+                    t.cancel();
+                    sc.push(Ev::CancelCalled);
+                } else {
+                    out.harness_err = Some("token cancel scheduled on an entry without token".into());
+                }
+                match phase {
+                    Phase::Inline => {
+                        if !wait_until(window(&out), || sc.count(|e| matches!(e, Ev::HCancelSeen { .. })) >= n).await {
+                            fail(&mut out, &env, "cancel-seen");
+                        }
+                        sc.hgate.open(ACT_GO);
+                    }
+                    Phase::OffReader => {
+                        if !wait_until(window(&out), || all_disconnected(&sc)).await {
+                            fail(&mut out, &env, "disconnect-while-handler-parked");
+                        }
+                        if !wait_until(window(&out), || sc.count(|e| matches!(e, Ev::HCancelSeen { .. })) >= n).await {
+                            fail(&mut out, &env, "cancel-seen");
+                        }
+                        sc.hgate.open(ACT_GO);
+                    }
+                    Phase::ConnectCb => sc.cgate.open(ACT_GO),
+                    _ => {}
+                }
+            }
+            Some(c @ (Cause::GracefulDrain | Cause::DrainAbort)) => {
+                if let Some(tx) = shutdown_tx.take() {
+                    let _ = tx.send(());
+                    sc.push(Ev::ShutdownFired);
+                }
+                serve_returned_expected = true;
+                if c == Cause::GracefulDrain {
+                    match phase {
+                        Phase::Inline | Phase::OffReader => {
+                            // cooperative handlers leave on their own once they see the cancellation
+                            if !wait_until(window(&out), || sc.count(|e| matches!(e, Ev::HCancelSeen { .. })) >= n).await {
+                                fail(&mut out, &env, "cancel-seen");
+                            }
+                        }
+                        Phase::ConnectCb => {
+                            tokio::time::sleep(Duration::from_millis(40)).await;
+                            sc.cgate.open(ACT_GO);
+                        }
+                        _ => {}
+                    }
+                    if !wait_until(window(&out), || all_disconnected(&sc)).await {
+                        fail(&mut out, &env, "disconnect");
+                    }
+                    // a wedged writer only goes away with its socket
+                    for cl in clients.iter_mut() {
+                        if phase == Phase::QueueFull {
+                            cl.ws = None;
+                        }
+                    }
+                } else {
+                    // uncooperative: keep everything wedged past the (150 ms) deadline, then let go
+                    match phase {
+                        Phase::QueueFull | Phase::OffReader => {
+                            // abort needs no help here: serve must come back with clients connected and handlers parked
+                            if !wait_until(window(&out), || sc.count(|e| matches!(e, Ev::ServeReturned)) >= 1).await {
+                                fail(&mut out, &env, "serve-returned-before-release");
+                            }
+                        }
+                        _ => tokio::time::sleep(Duration::from_millis(400)).await,
+                    }
+                    sc.cgate.open(ACT_GO);
+                    sc.hgate.open(ACT_GO);
+                }
+            }
+            Some(_) => {}
+        }
+    }
+
+    // --- quiescence: bounded window for every accepted connection's disconnect callback
+    let bystander_peers: Vec<u64> = peers_of_bystanders.clone();
+    let w = window(&out);
+    if out.harness_err.is_none() && !wait_until(w, || main_disconnected(&sc, &bystander_peers)).await {
+        fail(&mut out, &env, "disconnect");
+    }
+    // bystanders leave last, cleanly
+    join_all(clients.iter_mut().filter(|c| c.bystander).map(|c| async move {
+        apply_client_cause(c, Cause::Close, 0).await;
+        c.drain_until_closed(Duration::from_secs(3)).await;
+        c.ws = None;
+    }))
+    .await;
+    // after a cancel the server closes; read that out, then drop
+    join_all(clients.iter_mut().map(|c| async move {
+        if c.ws.is_some() && !small {
+            c.drain_until_closed(Duration::from_secs(2)).await;
+        }
+        c.ws = None;
+    }))
+    .await;
+    sc.cgate.open(ACT_GO);
+    sc.hgate.open(ACT_GO);
+    if out.harness_err.is_none() {
+        let w = window(&out);
+        if !wait_until(w, || all_disconnected(&sc)).await {
+            fail(&mut out, &env, "disconnect");
+        }
+        let parked = sc.count(|e| matches!(e, Ev::HEnter { .. }));
+        let w = window(&out);
+        if !wait_until(w, || sc.count(|e| matches!(e, Ev::HRelease { .. })) >= parked).await {
+            fail(&mut out, &env, "handler-release");
+        }
+    }
+    // --- teardown of the serving side
+    if entry == Entry::DrainListener {
+        if let Some(tx) = shutdown_tx.take() {
+            let _ = tx.send(());
+        }
+        if !wait_until(window(&out), || sc.count(|e| matches!(e, Ev::ServeReturned)) >= 1).await && serve_returned_expected {
+            fail(&mut out, &env, "serve-returned");
+        }
+    }
+    serve_task.abort();
+    // --- final probes from the outside
+    let peers: Vec<u64> = {
+        let log = sc.log.lock().unwrap_or_else(|e| e.into_inner());
+        let mut v: Vec<u64> = log.iter().filter_map(|(_, e)| if let Ev::Connect0 { peer } = e { Some(*peer) } else { None }).collect();
+        v.sort();
+        v.dedup();
+        v
+    };
+    for p in peers {
+        sc.probe_ev(p, "final");
+    }
+    out.final_len = sc.reg.len();
+    out.final_alias_c = (0..total).filter(|i| sc.reg.get_by(format!("c-{i}").as_str()).is_some()).count();
+    out.clients = clients
+        .into_iter()
+        .map(|c| CliRec { idx: c.idx, frames: c.frames, unparsable: c.unparsable, handshake_ok: c.handshake_ok, bystander: c.bystander, got_first_response: c.got_first_response, note: c.note })
+        .collect();
+    out
+}
+
+// ------------------------------------------------------------------ offline oracle
+
+fn cell_name(k: &Kind) -> (String, String) {
+    match k {
+        Kind::Cell(c, p) => (format!("{c:?}"), format!("{p:?}")),
+        Kind::Bad(b) => (format!("Bad{b:?}"), "Handshake".into()),
+    }
+}
+
+struct Tally {
+    connects: u64,
+    disconnects: u64,
+    probes_present: u64,
+    probes_absent: u64,
+    probes_unconstrained: u64,
+    order_checks: u64,
+    connect_notifies_seen: u64,
+    parked: u64,
+    released_after_disconnect_cancelled: u64,
+    cancel_seen: u64,
+    frames: u64,
+    bystanders_alive: u64,
+    panics: u64,
+    tolerated: u64,
+    error_responses: u64,
+    client_notes: u64,
+}
+
+fn judge(out: &Out, rep: &mut Report, stalled: bool, t: &mut Tally) {
+    let (cn, pn) = cell_name(&out.spec.kind);
+    let replay = json!({ "seed": out.spec.seed, "cause": cn, "phase": pn, "entry": format!("{:?}", out.spec.entry), "conns": out.spec.conns, "cfg": out.cfg });
+    let (mut found, mut notes) = (Vec::<(String, String)>::new(), Vec::<String>::new());
+    judge_inner(out, stalled, t, &mut found, &mut notes);
+    for (sig, detail) in found {
+        rep.violation(sig, detail, replay.clone());
+    }
+    for n in notes {
+        rep.inconclusive(n);
+    }
+}
+
+fn judge_inner(out: &Out, stalled: bool, t: &mut Tally, found: &mut Vec<(String, String)>, rep_note: &mut Vec<String>) {
+    let (cn, pn) = cell_name(&out.spec.kind);
+    let cell = format!("{cn}:{pn}");
+    let ev = out.sc.snapshot();
+    if let Some(e) = &out.harness_err {
+        rep_note.push(format!("{cell} via {:?}: harness: {e}", out.spec.entry));
+        return;
+    }
+    let setup_failed: Vec<&&str> = out.failed_waits.iter().filter(|w| w.starts_with("setup:") || w.starts_with("bad-handshake:")).collect();
+    let timed_out = !out.failed_waits.is_empty();
+    if timed_out && stalled {
+        rep_note.push(format!("{cell} via {:?}: waits {:?} expired while the machine stalled", out.spec.entry, out.failed_waits));
+        return;
+    }
+    let mut viol = |class: &str, detail: String| {
+        found.push((format!("C15:{class}:{cell}"), format!("{detail} [entry {:?}, {} connection(s), waits expired: {:?}]", out.spec.entry, out.spec.conns, out.failed_waits)));
+    };
+
+    // per-peer callback accounting
+    #[derive(Default)]
+    struct P {
+        c0: Vec<u64>,
+        c1: Option<(u64, bool)>,
+        connect_max: u64,
+        d0: Vec<u64>,
+        d1: Vec<u64>,
+    }
+    let mut peers: BTreeMap<u64, P> = BTreeMap::new();
+    let (mut cancel_called, mut serve_returned) = (None, None);
+    for (s, e) in &ev {
+        match e {
+            Ev::Connect0 { peer } => {
+                let p = peers.entry(*peer).or_default();
+                p.c0.push(*s);
+                p.connect_max = p.connect_max.max(*s);
+            }
+            Ev::Connect1 { peer, alias_ok, hello_ok, get, by_a, by_b } => {
+                let p = peers.entry(*peer).or_default();
+                p.c1 = Some((*s, *hello_ok));
+                p.connect_max = p.connect_max.max(*s);
+                if !(*alias_ok && *get && *by_a && *by_b) {
+                    viol("registry-absent-at-connect", format!("peer {peer}: inside the connect callback registered after with_peer_registry: alias()={alias_ok} get={get} get_by(a)={by_a} get_by(b)={by_b}"));
+                }
+            }
+            Ev::ConnectCtx { peer, .. } | Ev::CGateEnter { peer } | Ev::CGateExit { peer, .. } => {
+                let p = peers.entry(*peer).or_default();
+                p.connect_max = p.connect_max.max(*s);
+            }
+            Ev::PanicNow { peer, site } => {
+                t.panics += 1;
+                if *site == "connect-callback" {
+                    let p = peers.entry(*peer).or_default();
+                    p.connect_max = p.connect_max.max(*s);
+                }
+            }
+            Ev::Disc0 { peer, .. } => peers.entry(*peer).or_default().d0.push(*s),
+            Ev::Disc1 { peer, .. } => peers.entry(*peer).or_default().d1.push(*s),
+            Ev::CancelCalled => cancel_called = Some(*s),
+            Ev::ServeReturned => serve_returned = serve_returned.or(Some(*s)),
+            _ => {}
+        }
+    }
+    if ev.iter().any(|(_, e)| matches!(e, Ev::CGateExit { timeout: true, .. } | Ev::HRelease { timeout: true, .. })) {
+        rep_note.push(format!("{cell} via {:?}: a gate was never opened by the driver (harness)", out.spec.entry));
+        return;
+    }
+    if !setup_failed.is_empty() && peers.len() == out.n_ok {
+        // the scenario never reached its phase although every connection was accepted: not a verdict on C15
+        rep_note.push(format!("{cell} via {:?}: setup waits expired {:?}", out.spec.entry, out.failed_waits));
+        return;
+    }
+    // bounded-progress clauses: a property-relevant wait that expired without a machine stall is a violation
+    // even if the event showed up later (after the harness dropped sockets / opened gates during teardown)
+    for w in &out.failed_waits {
+        match *w {
+            "disconnect" => viol("disconnect-window-expired", format!("not every accepted connection had run its disconnect callbacks {} s after its exit cause was applied", WINDOW.as_secs())),
+            "disconnect-while-handler-parked" => viol("disconnect-window-expired:handler-parked", format!("with an off-reader handler still parked the disconnect callbacks had not run {} s after the exit cause", WINDOW.as_secs())),
+            "cancel-seen" => viol("cancel-not-observed-in-window", format!("parked handlers polling CallContext::is_cancelled() every 3 ms did not all see true within {} s", WINDOW.as_secs())),
+            "handler-release" => rep_note.push(format!("{cell}: parked handlers did not log their release in the window")),
+            "serve-returned" | "serve-returned-before-release" => rep_note.push(format!("{cell}: serve_listener_with_graceful_drain did not return in the window ({w})")),
+            _ => {}
+        }
+    }
+    let accepted = peers.values().filter(|p| !p.c0.is_empty()).count();
+    if accepted > out.n_ok {
+        viol("callback-on-failed-handshake", format!("{accepted} connections ran connect callbacks but only {} client handshakes succeeded ({} failed handshakes attempted)", out.n_ok, out.bad_attempts));
+    } else if accepted < out.n_ok {
+        viol("connect-missing", format!("{} client handshakes succeeded but only {accepted} connections ran the first connect callback", out.n_ok));
+    }
+    for (peer, p) in &peers {
+        t.connects += p.c0.len() as u64;
+        t.disconnects += p.d1.len() as u64;
+        if p.c0.is_empty() {
+            viol("disconnect-without-connect", format!("peer {peer}: disconnect callbacks ran ({}/{}) but no connect callback", p.d0.len(), p.d1.len()));
+            continue;
+        }
+        if p.c0.len() > 1 {
+            viol("connect-twice", format!("peer {peer}: first connect callback ran {} times", p.c0.len()));
+        }
+        for (name, d) in [("first", &p.d0), ("last", &p.d1)] {
+            match d.len() {
+                1 => {}
+                0 => viol("disconnect-missing", format!("peer {peer}: the {name} disconnect callback never ran within the {} s window after the connection was ended", WINDOW.as_secs())),
+                k => viol("disconnect-twice", format!("peer {peer}: the {name} disconnect callback ran {k} times (seqs {d:?})")),
+            }
+        }
+        if let Some(d0) = p.d0.first() {
+            if *d0 < p.connect_max {
+                viol("disconnect-before-connect-done", format!("peer {peer}: disconnect callback at seq {d0} but connect-callback activity continued until seq {}", p.connect_max));
+            }
+            if let Some(d1) = p.d1.first() {
+                if d1 < d0 {
+                    viol("disconnect-hook-order", format!("peer {peer}: disconnect hooks ran out of registration order ({d1} < {d0})"));
+                }
+            }
+        }
+    }
+    // registry presence / absence
+    for (s, e) in &ev {
+        match e {
+            Ev::Disc0 { peer, get, by_a, by_b } => {
+                let inserted = peers.get(peer).map(|p| p.c1.is_some()).unwrap_or(false);
+                if inserted && !(*get && *by_a && *by_b) {
+                    viol("registry-absent-before-disconnect", format!("peer {peer}: in the disconnect callback registered before with_peer_registry: get={get} get_by(a)={by_a} get_by(b)={by_b}"));
+                } else if inserted {
+                    t.probes_present += 1;
+                }
+            }
+            Ev::Disc1 { peer, get, by_a, by_b, n_alias } => {
+                if *get || *by_a || *by_b || *n_alias != 0 {
+                    viol("registry-present-after-disconnect:disconnect-hook", format!("peer {peer}: in the disconnect callback registered after with_peer_registry: get={get} get_by(a)={by_a} get_by(b)={by_b} aliases_for={n_alias}"));
+                } else {
+                    t.probes_absent += 1;
+                }
+            }
+            Ev::Probe { peer, s1, get, by_a, by_b, site } => {
+                let Some(p) = peers.get(peer) else {
+                    t.probes_unconstrained += 1;
+                    continue;
+                };
+                let after_connect = p.c1.map(|(c, _)| *s1 > c).unwrap_or(false);
+                let before_disc = p.d0.first().map(|d| s < d).unwrap_or(true);
+                let after_disc = p.d1.first().map(|d| s1 > d).unwrap_or(false);
+                if after_connect && before_disc {
+                    if !(*get && *by_a && *by_b) {
+                        viol(&format!("registry-absent-while-connected:{site}"), format!("peer {peer}: probe [{s1},{s}] between connect callback and disconnect callback: get={get} get_by(a)={by_a} get_by(b)={by_b}"));
+                    } else {
+                        t.probes_present += 1;
+                    }
+                } else if after_disc {
+                    if *get || *by_a || *by_b {
+                        viol(&format!("registry-present-after-disconnect:{site}"), format!("peer {peer}: probe [{s1},{s}] after the last disconnect callback (seq {:?}): get={get} get_by(a)={by_a} get_by(b)={by_b}", p.d1.first()));
+                    } else {
+                        t.probes_absent += 1;
+                    }
+                } else {
+                    t.probes_unconstrained += 1;
+                }
+            }
+            _ => {}
+        }
+    }
+    if !timed_out && (out.final_len != 0 || out.final_alias_c != 0) {
+        viol("registry-nonempty-at-quiescence", format!("after every disconnect callback ran the registry still holds {} peers and {} handshake aliases", out.final_len, out.final_alias_c));
+    }
+    // cancellation seen by handlers that were still parked when the connection ended
+    for (_, e) in &ev {
+        match e {
+            Ev::HEnter { .. } => t.parked += 1,
+            Ev::HCancelSeen { .. } => t.cancel_seen += 1,
+            Ev::HRelease { peer, tok, off, s1, cancelled, .. } => {
+                let kind = if *off { "off-reader" } else { "inline" };
+                let d0 = peers.get(peer).and_then(|p| p.d0.first().copied());
+                let mut must = None;
+                if d0.map(|d| d < *s1).unwrap_or(false) {
+                    must = Some("its connection's disconnect callback had already run");
+                } else if out.token_attached && cancel_called.map(|c| c < *s1).unwrap_or(false) {
+                    must = Some("ShutdownToken::cancel() had already returned");
+                } else if serve_returned.map(|c| c < *s1).unwrap_or(false) && matches!(out.spec.kind, Kind::Cell(Cause::GracefulDrain | Cause::DrainAbort, _)) {
+                    must = Some("the graceful-drain serve call had already returned");
+                }
+                if let Some(why) = must {
+                    if *cancelled {
+                        t.released_after_disconnect_cancelled += 1;
+                    } else {
+                        viol(&format!("parked-handler-not-cancelled:{kind}"), format!("peer {peer} handler #{tok} ({kind}): is_cancelled()==false at seq {s1} although {why}"));
+                    }
+                }
+            }
+            Ev::BystanderAlive { .. } => t.bystanders_alive += 1,
+            _ => {}
+        }
+    }
+    // bystanders: no disconnect before they proved alive after their neighbours' exits
+    for (s, e) in &ev {
+        if let Ev::BystanderAlive { peer } = e {
+            if let Some(d) = peers.get(peer).and_then(|p| p.d0.first()) {
+                if d < s {
+                    viol("disconnect-of-live-connection", format!("peer {peer}: disconnect callback at seq {d}, but the connection answered a request afterwards (seq {s})"));
+                }
+            }
+        }
+    }
+    // frame order seen by the raw clients: connect-queued notifies before any response, in hook order
+    let hellos_ok = ev.iter().all(|(_, e)| match e {
+        Ev::Connect1 { hello_ok, .. } | Ev::ConnectCtx { hello_ok, .. } => *hello_ok,
+        _ => true,
+    });
+    for c in &out.clients {
+        t.frames += c.frames.len() as u64;
+        if c.unparsable > 0 {
+            viol("unparsable-frame", format!("client {}: {} binary messages were not one REPE frame", c.idx, c.unparsable));
+        }
+        if !c.got_first_response || !hellos_ok {
+            continue;
+        }
+        t.order_checks += 1;
+        let first_resp = c.frames.iter().position(|f| !f.notify).unwrap_or(c.frames.len());
+        let before: Vec<&str> = c.frames[..first_resp].iter().filter(|f| f.path.starts_with("/hello")).map(|f| f.path.as_str()).collect();
+        t.connect_notifies_seen += before.len() as u64;
+        let want: Vec<&str> = out.expected_hellos.clone();
+        if before.len() < want.len() {
+            let order: Vec<String> = c.frames.iter().take(6).map(|f| format!("{}{}", if f.notify { "N" } else { "R" }, f.path)).collect();
+            viol("response-before-connect-notify", format!("client {}: frames on the wire {order:?}; connect callbacks queued {want:?} (send_notify returned Ok) before the reader started", c.idx));
+        } else if before != want {
+            viol("connect-notify-order", format!("client {}: connect notifies arrived as {before:?}, hooks queued {want:?}", c.idx));
+        }
+    }
+    t.tolerated += out.tolerated_frame_cause as u64;
+    t.error_responses += out.clients.iter().flat_map(|c| c.frames.iter()).filter(|f| !f.notify && f.ec != 0).count() as u64;
+    t.client_notes += out.clients.iter().filter(|c| c.handshake_ok && c.note.is_some()).count() as u64;
+}
+
+// ------------------------------------------------------------------ table driver
+
+fn pick_conns(r: &mut Rng, phase: Phase, bad: bool) -> usize {
+    if bad {
+        return 1 + r.usize_below(3);
+    }
+    let n = *r.pick(&[1usize, 1, 2, 3, 4, 6, 8, 12, 16, 24, 32]);
+    match phase {
+        Phase::QueueFull => n.min(6),
+        _ => n,
+    }
+}
 
 pub fn run(args: &Args) -> Report {
-    let mut rep = Report::new(args, "c15-stub", "stub");
-    rep.inconclusive("check not implemented");
+    let mut rep = Report::new(
+        args,
+        "c15-lifecycle-fault-table",
+        "fault enumeration: every meaningful (exit cause x connection phase x serving entry point) cell is executed against a real \
+         WebSocketServer with 1..32 raw tokio-tungstenite clients, plus failed-handshake cells; the oracle runs offline over one \
+         globally sequenced callback/handler/driver event log and the frame order seen by the raw clients: exactly one disconnect \
+         callback per accepted connection, after its connect callbacks, none for failed handshakes, registry/alias presence between \
+         and absence after, connect-queued notifies before any response, parked handlers observe is_cancelled()",
+    );
+    let hb = Heartbeat::start();
+    let srv_rt = match tokio::runtime::Builder::new_multi_thread().worker_threads(56).max_blocking_threads(1024).thread_name("c15-srv").enable_all().build() {
+        Ok(r) => r,
+        Err(e) => {
+            rep.inconclusive(format!("server runtime: {e}"));
+            return rep;
+        }
+    };
+    let cli_rt = match tokio::runtime::Builder::new_multi_thread().worker_threads(8).thread_name("c15-cli").enable_all().build() {
+        Ok(r) => r,
+        Err(e) => {
+            rep.inconclusive(format!("client runtime: {e}"));
+            return rep;
+        }
+    };
+    let env = Arc::new(Env { srv: srv_rt.handle().clone(), block_budget: Arc::new(Semaphore::new(44)), expired: AtomicU64::new(0) });
+    // The scenarios deliberately park tokio worker threads inside connect callbacks and inline handlers (that is
+    // what makes the phase certain). A worker that was woken by the I/O driver with exactly one task and then
+    // blocks in it leaves the driver unowned while every other worker sleeps, which would stall *unrelated*
+    // sockets of the harness. An external ticker keeps handing the driver to an idle worker.
+    let tick_stop = Arc::new(std::sync::atomic::AtomicBool::new(false));
+    let ticker = {
+        let (stop, h) = (tick_stop.clone(), srv_rt.handle().clone());
+        std::thread::spawn(move || {
+            while !stop.load(Ordering::Relaxed) {
+                h.spawn(async {});
+                std::thread::sleep(Duration::from_micros(700));
+            }
+        })
+    };
+
+    // the table
+    let mut skipped: BTreeMap<&'static str, u64> = BTreeMap::new();
+    let mut cells: Vec<(Kind, Entry)> = vec![];
+    for c in CAUSES {
+        for p in PHASES {
+            for e in ENTRIES {
+                match skip_reason(c, p, e) {
+                    Some(why) => *skipped.entry(why).or_default() += 1,
+                    None => cells.push((Kind::Cell(c, p), e)),
+                }
+            }
+        }
+    }
+    for b in BAD_HS {
+        for e in ENTRIES {
+            if e == Entry::Adopt {
+                *skipped.entry("failed handshake under adopt_upgraded: the handshake is the embedder's, the library never sees it").or_default() += 1;
+            } else {
+                cells.push((Kind::Bad(b), e));
+            }
+        }
+    }
+    let table_cells = CAUSES.len() * PHASES.len() * ENTRIES.len() + BAD_HS.len() * ENTRIES.len();
+    rep.set("table_cells_total", json!(table_cells));
+    rep.set("table_cells_meaningful", json!(cells.len()));
+    rep.set("table_cells_skipped", json!(skipped.values().sum::<u64>()));
+    rep.set("table_cells_skipped_by_reason", json!(skipped));
+
+    let passes = args.budget(6, 90);
+    let par = 10usize;
+    let mut rng = Rng::new(args.seed ^ 0xC15);
+    let wall_cap = if args.thorough() { Duration::from_secs(400) } else { Duration::from_secs(30) };
+    quiet_panics(true);
+    let mut executed_cells: std::collections::BTreeSet<String> = Default::default();
+    let mut conn_hist: BTreeMap<usize, u64> = BTreeMap::new();
+    let mut slow: Vec<(u64, String)> = vec![];
+    let mut t = Tally { connects: 0, disconnects: 0, probes_present: 0, probes_absent: 0, probes_unconstrained: 0, order_checks: 0, connect_notifies_seen: 0, parked: 0, released_after_disconnect_cancelled: 0, cancel_seen: 0, frames: 0, bystanders_alive: 0, panics: 0, tolerated: 0, error_responses: 0, client_notes: 0 };
+    let (mut scenarios, mut connections, mut bad_attempts, mut passes_done, mut not_started) = (0u64, 0u64, 0u64, 0u64, 0u64);
+    for pass in 0..passes {
+        if rep.elapsed() > wall_cap || env.expired.load(Ordering::Relaxed) >= 8 {
+            break;
+        }
+        let mut specs: Vec<Spec> = cells
+            .iter()
+            .map(|(k, e)| {
+                let mut r = rng.fork(hash_of(&(pass, format!("{k:?}"), *e)));
+                let (phase, bad) = match k {
+                    Kind::Cell(_, p) => (*p, false),
+                    Kind::Bad(_) => (Phase::Idle, true),
+                };
+                Spec { kind: k.clone(), entry: *e, conns: pick_conns(&mut r, phase, bad), seed: r.next_u64() }
+            })
+            .collect();
+        // the 32-connection end of the range is always exercised, on rotating cells
+        let len = specs.len();
+        for k in 0..4 {
+            let i = ((pass as usize) * 37 + k * 53 + (args.seed as usize % 97)) % len;
+            if let Kind::Cell(_, p) = specs[i].kind {
+                if p != Phase::QueueFull {
+                    specs[i].conns = 32;
+                }
+            }
+        }
+        rng.shuffle(&mut specs);
+        // replay / debugging: `only=<substring of Cause:Phase:Entry>` `conns=<n>` `cellseed=<u64>` as extra args
+        for x in &args.extra {
+            if let Some(f) = x.strip_prefix("only=") {
+                specs.retain(|s| {
+                    let (c, p) = cell_name(&s.kind);
+                    format!("{c}:{p}:{:?}", s.entry).contains(f)
+                });
+            }
+            if let Some(n) = x.strip_prefix("conns=").and_then(|n| n.parse::<usize>().ok()) {
+                specs.iter_mut().for_each(|s| s.conns = n);
+            }
+            if let Some(n) = x.strip_prefix("cellseed=").and_then(|n| n.parse::<u64>().ok()) {
+                specs.iter_mut().for_each(|s| s.seed = n);
+            }
+        }
+        if specs.is_empty() {
+            break;
+        }
+        let started = Instant::now();
+        let budget_left = wall_cap.saturating_sub(rep.elapsed());
+        let env2 = env.clone();
+        let outs: Vec<Result<Out, String>> = cli_rt.block_on(async move {
+            let sem = Arc::new(Semaphore::new(par));
+            let mut handles = vec![];
+            for spec in specs {
+                let Ok(permit) = sem.clone().acquire_owned().await else { break };
+                // stop early once many scenarios burnt a whole window: the verdict is decided, keep the stage bounded
+                if started.elapsed() > budget_left || env2.expired.load(Ordering::Relaxed) >= 8 {
+                    handles.push((spec.clone(), None));
+                    continue;
+                }
+                let env = env2.clone();
+                let sp = spec.clone();
+                handles.push((
+                    spec,
+                    Some(tokio::spawn(async move {
+                        let o = tokio::time::timeout(Duration::from_secs(100), run_scenario(sp, env)).await;
+                        drop(permit);
+                        o
+                    })),
+                ));
+            }
+            let mut outs = vec![];
+            for (spec, h) in handles {
+                let (cn, pn) = cell_name(&spec.kind);
+                match h {
+                    None => outs.push(Err(format!("not started (wall budget): {cn}:{pn} via {:?}", spec.entry))),
+                    Some(h) => match h.await {
+                        Ok(Ok(o)) => outs.push(Ok(o)),
+                        Ok(Err(_)) => outs.push(Err(format!("scenario watchdog (100 s): {cn}:{pn} via {:?} seed {}", spec.entry, spec.seed))),
+                        Err(e) => outs.push(Err(format!("scenario task failed: {cn}:{pn} via {:?}: {e}", spec.entry))),
+                    },
+                }
+            }
+            // late duplicates would land after the scenario's own wait; judge after a settle
+            tokio::time::sleep(Duration::from_millis(250)).await;
+            outs
+        });
+        let stalled = hb.max_gap_ms() > 1000;
+        for o in outs {
+            match o {
+                Err(e) if e.starts_with("not started") => not_started += 1,
+                Err(e) => rep.inconclusive(e),
+                Ok(o) => {
+                    rep.eval();
+                    scenarios += 1;
+                    connections += o.n_ok as u64;
+                    bad_attempts += o.bad_attempts as u64;
+                    *conn_hist.entry(o.spec.conns).or_default() += 1;
+                    slow.push((o.wall_ms, format!("{:?} via {:?} x{} {}", o.spec.kind, o.spec.entry, o.spec.conns, o.cfg)));
+                    let (cn, pn) = cell_name(&o.spec.kind);
+                    executed_cells.insert(format!("{cn}:{pn}:{:?}", o.spec.entry));
+                    rep.distinct(&(cn.clone(), pn.clone(), o.spec.entry, o.spec.conns, o.cfg.to_string()));
+                    let before = rep.violations.len();
+                    judge(&o, &mut rep, stalled, &mut t);
+                    if rep.samples.len() < 5 && (scenarios % 41 == 1 || rep.violations.len() > before) {
+                        let evs: Vec<String> = o.sc.snapshot().iter().take(24).map(|(s, e)| format!("{s}:{e:?}")).collect();
+                        let wire: Vec<String> = o.clients.first().map(|c| c.frames.iter().take(6).map(|f| format!("{}{}#{}", if f.notify { "N" } else { "R" }, f.path, f.id)).collect()).unwrap_or_default();
+                        rep.sample(json!({ "cause": cn, "phase": pn, "entry": format!("{:?}", o.spec.entry), "conns": o.spec.conns, "cfg": o.cfg, "first_events": evs, "client0_wire": wire }));
+                    }
+                }
+            }
+        }
+        passes_done += 1;
+    }
+    quiet_panics(false);
+    rep.set("passes", json!(passes_done));
+    rep.set("scenarios_executed", json!(scenarios));
+    rep.set("scenarios_not_started_wall_budget", json!(not_started));
+    rep.set("cells_executed", json!(executed_cells.len()));
+    rep.set("cells_not_executed", json!(cells.iter().map(|(k, e)| { let (c, p) = cell_name(k); format!("{c}:{p}:{e:?}") }).filter(|n| !executed_cells.contains(n)).collect::<Vec<_>>()));
+    rep.set("connections_accepted", json!(connections));
+    rep.set("connections_per_scenario_histogram", json!(conn_hist.iter().map(|(k, v)| (k.to_string(), *v)).collect::<BTreeMap<_, _>>()));
+    rep.set("failed_handshakes_attempted", json!(bad_attempts));
+    rep.set("connect_callbacks_observed", json!(t.connects));
+    rep.set("disconnect_callbacks_observed", json!(t.disconnects));
+    rep.set("registry_probes_required_present", json!(t.probes_present));
+    rep.set("registry_probes_required_absent", json!(t.probes_absent));
+    rep.set("registry_probes_unconstrained", json!(t.probes_unconstrained));
+    rep.set("frame_order_checks", json!(t.order_checks));
+    rep.set("connect_notifies_before_first_response", json!(t.connect_notifies_seen));
+    rep.set("client_frames_observed", json!(t.frames));
+    rep.set("handlers_parked", json!(t.parked));
+    rep.set("handlers_saw_cancel_while_parked", json!(t.cancel_seen));
+    rep.set("handlers_released_after_end_and_cancelled", json!(t.released_after_disconnect_cancelled));
+    rep.set("bystander_liveness_checks", json!(t.bystanders_alive));
+    rep.set("scripted_panics_fired", json!(t.panics));
+    rep.set("frame_causes_tolerated_by_server_then_dropped", json!(t.tolerated));
+    rep.set("error_responses_seen_by_clients", json!(t.error_responses));
+    rep.set("clients_whose_first_read_ended_early", json!(t.client_notes));
+    slow.sort();
+    slow.reverse();
+    rep.set("slowest_scenarios_ms", json!(slow.iter().take(12).collect::<Vec<_>>()));
+    rep.set("scenario_wall_ms_total", json!(slow.iter().map(|s| s.0).sum::<u64>()));
+    rep.set("heartbeat_max_gap_ms", json!(hb.max_gap_ms()));
+    rep.set("table_fully_executed", json!(executed_cells.len() == cells.len()));
+    if scenarios == 0 {
+        rep.inconclusive("no scenario executed");
+    } else if executed_cells.len() < cells.len() && !args.extra.iter().any(|x| x.starts_with("only=")) {
+        rep.inconclusive(format!("{} of {} meaningful cells were not executed (wall budget / harness trouble)", cells.len() - executed_cells.len(), cells.len()));
+    }
+    tick_stop.store(true, Ordering::Relaxed);
+    let _ = ticker.join();
+    // blocked handler threads are released; do not wait for stragglers
+    srv_rt.shutdown_timeout(Duration::from_secs(2));
+    cli_rt.shutdown_timeout(Duration::from_secs(2));
     rep
 }
